@@ -93,7 +93,10 @@ class Checker:
         """Runs another property's rule function on the same source and takes over the obligations of `rules` under
         the id `as_rule` of this property (a property that relies on a mechanism decided elsewhere lists it as its own
         obligation, so a defect in the mechanism is reported for every property it breaks)."""
+        if getattr(self, '_import_depth', 0) >= 1:
+            return 0          # an imported rule set does not import in turn (C01 <-> C03 rely on each other's mechanism)
         sub = Checker(prop, self.src, self.tier)
+        sub._import_depth = getattr(self, '_import_depth', 0) + 1
         run(sub)
         n = 0
         for o in sub.obs:
